@@ -13,6 +13,7 @@ from fractions import Fraction
 from unittest import mock
 
 from harness.common import Driver, LeanError, Report, lean_stage, seeded
+from harness.props.extra_stage import ExtraLeanStage
 
 REGISTRY = dict(
     text=("Lean 4 theorems for every qubit number and all inputs (scalars: any commutative star ring with the complex laws; "
@@ -24,10 +25,15 @@ REGISTRY = dict(
           "psi_r conj(psi_c), is Hermitian, acts as |psi><psi|, has trace <psi|psi>, and overlap of pure states is |<psi|phi>|^2; "
           "reduce(torch.kron, gates)[r,c] = prod_q gate_q[r_q,c_q]; targets are assigned last-writer-wins with Python negative "
           "indices; the four basis symbols are |row><col|; sparse coalesce/sparse_add/scaling/sparse_kron on bags of "
-          "(row,col,val) denote the same matrix / the sum / the multiple / the Kronecker product (index form). PARTIAL: the "
-          "single end-to-end statement 'sparse _from_operator_repr denotes the dense one' is stated (SparseReprEqualsDenseRepr), "
-          "its ingredients are proved, the index-bound invariant through the symbol builder is not; validated exactly by "
-          "correspondence and the dense-vs-sparse oracle. Nested symbolic operators are modelled (symbol table with fuel) but "
+          "(row,col,val) denote the same matrix / the sum / the multiple / the Kronecker product (index form). The "
+          "end-to-end statement 'sparse _from_operator_repr denotes the dense one' (SparseReprEqualsDenseRepr, a Prop in "
+          "Props/C12.lean) is PROVED in Props/C12Sparse.lean (audited on every run): from_operator_repr_rel - for every symbol "
+          "table, recursion budget (nested symbolic operators included), qubit number, terms, factors and targets the sparse and "
+          "the dense constructor raise on exactly the same representations and otherwise den(S)[r,c] = A[r,c] for all r,c < 2^n "
+          "(build_rel, gates_rel, kron_fold_sparse_eq_dense: induction over symbols, factors/targets and the Kronecker fold with "
+          "the index-bound invariant), sparseReprEqualsDenseRepr_holds, sparse_repr_raises_iff_dense_raises. Not modelled: "
+          ".to_sparse_csr() and torch's CSR kernels (validated by the correspondence and the dense-vs-sparse oracle). Nested "
+          "symbolic operators are modelled (symbol table with fuel) but "
           "unreachable in this version of the code (the table only ever holds the four basis tensors)."),
     note=("Trusted: Lean kernel + propext/Classical.choice/Quot.sound; Mathlib; hand-written Model.SvState tied by exact "
           "correspondence only; torch.linalg.vector_norm / torch.abs enter as a tape (contract nrm^2 = sum|a_i|^2 validated to "
@@ -38,6 +44,7 @@ REGISTRY = dict(
 
 PROP_MODULE = "EmuVerif.Props.C12"
 AUDIT = "Audit/C12.lean"
+EXTRA_STAGES = [("EmuVerif.Props.C12Sparse", "Audit/C12Sparse.lean")]    # sparse constructor = dense constructor; every run
 RTOL_TAPE = 1e-12
 RTOL_ORACLE = 1e-10
 STATE = {"sparse_unsafe": False}
@@ -450,8 +457,11 @@ def check(rep: Report, tier: str, seed: int) -> None:
     t0 = time.time()
     lean_stage(rep, PROP_MODULE, AUDIT, thorough=(tier == "thorough"))
     rep.extra["t_lean_stage_s"] = round(time.time() - t0, 1)
+    extra = ExtraLeanStage(rep, EXTRA_STAGES, thorough=(tier == "thorough"))     # concurrent with the Python side
+    extra.start()
     correspondence(rep, seeded(seed * 7919 + 12), tier)
     oracle(rep, seeded(seed * 104729 + 12), 40 if tier == "quick" else 1000)
+    extra.merge()
     rep.extra["t_total_s"] = round(time.time() - t0, 1)
     if rep.broken and not rep.failing:
         search(rep, seed, 300 if tier == "quick" else 3000)
